@@ -14,6 +14,7 @@ from vlib.pdbio import Atom
 from props import c01
 
 PROPERTY = "C12"
+REDUCE_KEYS = ["pdb"]
 LEVEL = "fault_enumeration"
 RULE = ("(i) exhaustive: for each of the 20 residue types X, the tripeptide GLY-X-GLY(+OXT) built on a corpus "
         "backbone, every subset of X's heavy atoms deleted (28,976 cases), and for the ionizable types also with X as "
